@@ -112,22 +112,42 @@ fn rounds<'a>(rep: &mut Report, sub: &'static str, case: u64, kind: Kind, terms:
     for i in 0..n { if conn[i] { connect(&ext[i], terms[i]); } }
     let mut clock = rng.range_i64(-(1 << 40), 1 << 40);
     let consistent_round = rng.chance(0.15);
+    // whole-case magnitude: ordinary, or tiny (an absolute epsilon in the code would only show there)
+    let scale: f32 = if rng.chance(0.12) { *rng.pick(&[1e-6f32, 1e-8, 3e-5]) } else { 1.0 };
     let nrounds = 1 + rng.usize(8);
     let mut log = String::new();
+    let mut prev_writes: Vec<(usize, usize, i64, State)> = Vec::new();
     for round in 0..nrounds {
         // ---- write new data into a random subset of own / external terminals
-        let base = rand_state(rng);
-        for i in 0..n {
-            for (which, p) in [(0, 0.35), (1, 0.35)] {
-                if which == 1 && !conn[i] { continue; }
-                if rng.chance(p) {
-                    clock += rng.range_i64(1, 1_000_000_000);
-                    let s = if consistent_round { consistent_value(kind, i, base) } else { rand_state(rng) };
-                    let tgt: &T = if which == 0 { terms[i] } else { &ext[i] };
-                    set_state(tgt, clock, s);
-                    log.push_str(&format!("r{} set {}[{}] t={} {:?}; ", round, if which == 0 { "own" } else { "ext" }, i, clock, s));
+        let base = rand_state(rng) * scale;
+        let replay = round > 0 && !prev_writes.is_empty() && rng.chance(0.12);
+        let mut writes: Vec<(usize, usize, i64, State)> = Vec::new();
+        if replay {
+            // exactly the same sets as in the previous round (same values, same stamps)
+            writes = prev_writes.clone();
+            rep.tally("rounds_replaying_previous_writes");
+        } else {
+            for i in 0..n {
+                for (which, p) in [(0usize, 0.35), (1, 0.35)] {
+                    if which == 1 && !conn[i] { continue; }
+                    if rng.chance(p) {
+                        clock += rng.range_i64(1, 1_000_000_000);
+                        let tgt: &T = if which == 0 { terms[i] } else { &ext[i] };
+                        let mut s = if consistent_round { consistent_value(kind, i, base) } else { rand_state(rng) * scale };
+                        if consistent_round && rng.chance(0.15) { s.acceleration = rng.moderate(1e2) * scale; } // consistent in position and velocity only
+                        if rng.chance(0.1) { if let Some(d) = own_state(tgt) { s = d.value; rep.tally("rewrites_of_current_value_with_newer_stamp"); } }
+                        writes.push((which, i, clock, s));
+                    }
                 }
             }
+        }
+        for (which, i, t, s) in &writes {
+            let tgt: &T = if *which == 0 { terms[*i] } else { &ext[*i] };
+            set_state(tgt, *t, *s);
+            log.push_str(&format!("r{} set {}[{}] t={} {:?}; ", round, if *which == 0 { "own" } else { "ext" }, i, t, s));
+        }
+        prev_writes = writes;
+        for i in 0..n {
             if rng.chance(0.2) {
                 clock += rng.range_i64(1, 1000);
                 set_cmd(if conn[i] && rng.chance(0.5) { &ext[i] } else { terms[i] }, clock, Command::new(PositionDerivative::Velocity, rng.moderate(1e2)));
